@@ -42,8 +42,8 @@ MAXMAG = 2 ** 40
 
 
 def translate():
-    from translate import op_tables
-    return {'Gen/OpTables.v': op_tables.translate()}
+    from translate import op_tables, op_dispatch
+    return {'Gen/OpTables.v': op_tables.translate(), 'Gen/OpDispatch.v': op_dispatch.translate()}
 
 
 # ------------------------------------------------------------------ the pool
